@@ -39,6 +39,8 @@
   (u) a renamed instance attribute (same: one attribute of the class is missing, one unknown attribute with the same occurrence profile over the
       methods of the class is there) gets its reference name back everywhere in the tree
 
+  (w) `t = not A or B`  ->  `t = True if not A else B` (then step m)
+
   (v) `x.to_bytes(n, byteorder='big')` / `int.from_bytes(b, byteorder='big')` -> positional byte order; `bytes.fromhex('0016')` of a literal -> the
       bytes literal
 
@@ -149,6 +151,11 @@ class _Canon(ast.NodeTransformer):
                 return ast.copy_location(ast.Constant(bytes.fromhex(node.args[0].value)), node)
             except ValueError:
                 pass
+        if isinstance(node.func, ast.Name) and node.func.id == "isinstance" and len(node.args) == 2 and not node.keywords and isinstance(node.args[1], ast.Tuple) \
+                and len(node.args[1].elts) >= 2 and isinstance(node.args[0], (ast.Name, ast.Attribute)):
+            import copy as _copy
+            return ast.copy_location(ast.BoolOp(op=ast.Or(), values=[ast.copy_location(ast.Call(func=ast.Name("isinstance", ast.Load()), args=[_copy.deepcopy(node.args[0]), e], keywords=[]), node)
+                                                                     for e in node.args[1].elts]), node)
         if isinstance(node.func, ast.Name) and node.func.id == "range" and len(node.args) == 1 and not node.keywords:
             node.args = [ast.copy_location(ast.Constant(0), node.args[0]), node.args[0]]
         return node
@@ -170,6 +177,13 @@ class _Canon(ast.NodeTransformer):
 
     def visit_Assign(self, node: ast.Assign):
         self.generic_visit(node)
+        # (w) `t = not A or B` is `t = True if not A else B` (`not A` evaluates to the constant True exactly when it is taken); step (m)
+        # then brings it to the if-statement / conditional-expression shape of the reference tree
+        v = node.value
+        if len(node.targets) == 1 and isinstance(node.targets[0], (ast.Name, ast.Attribute)) and isinstance(v, ast.BoolOp) and isinstance(v.op, ast.Or) \
+                and len(v.values) == 2 and isinstance(v.values[0], ast.UnaryOp) and isinstance(v.values[0].op, ast.Not):
+            node.value = ast.copy_location(ast.IfExp(test=v.values[0], body=ast.copy_location(ast.Constant(True), v), orelse=v.values[1]), v)
+            return node
         if len(node.targets) == 1 and isinstance(node.targets[0], (ast.Name, ast.Attribute)) and isinstance(node.value, ast.BinOp):
             tgt = node.targets[0]
             if _same(node.value.left, tgt) and isinstance(node.value.op, (ast.Add, ast.Sub, ast.Mult, ast.FloorDiv, ast.LShift, ast.RShift, ast.BitOr, ast.BitAnd, ast.BitXor)):
@@ -340,6 +354,11 @@ def normalise_locals(relpath: str, tree: ast.Module) -> int:
                 key = f"{relpath}::{prefix}{st.name}"
                 want = ref.get(key)
                 if want is not None:
+                    if (key + "::iters") in ref:
+                        from . import canon2
+                        canon2.loop_shapes(st, ref[key + "::iters"], ref.get(key + "::booltgt", []))
+                        canon2.while_shapes(st, ref.get(key + "::while", []))
+                        canon2.inline_pure_temps(st, want)
                     _drop_dead_constants(st, want)
                     for _round in range(3):
                         have = binding_order(st)
@@ -942,8 +961,11 @@ def _inline_new_helpers(relpath: str, tree: ast.Module) -> None:
 
 
 def canonicalise(relpath: str, tree: ast.Module) -> ast.Module:
+    from . import canon2
+    canon2.inline_new_helpers(relpath, tree, _ref())
     _inline_new_helpers(relpath, tree)
     _inline_new_module_constants(relpath, tree)
+    canon2.inline_new_constants(relpath, tree, _ref())
     _split_tuple_assigns(tree)
     tree = _Canon().visit(tree)
     normalise_locals(relpath, tree)
@@ -973,6 +995,8 @@ def build_reference(root: str) -> Dict[str, List[str]]:
             if isinstance(st, ast.ClassDef):
                 pr = _class_attr_profile(st)
                 out[f"{rel}::{st.name}::attrs"] = pr
+                out[f"{rel}::{st.name}::classnames"] = sorted({y.id for x in st.body if isinstance(x, (ast.Assign, ast.AnnAssign)) for y in ast.walk(x)
+                                                              if isinstance(y, ast.Name) and isinstance(y.ctx, ast.Store)})
                 anames |= set(pr)
         for x in ast.walk(t):
             if isinstance(x, ast.Attribute):
@@ -1028,6 +1052,14 @@ def build_reference(root: str) -> Dict[str, List[str]]:
                                       if isinstance(n, ast.Compare) and len(n.ops) == 1 and type(n.ops[0]) in _FLIP})
                         if lts:
                             out[f"{rel}::{prefix}{st.name}::<"] = lts
+                        from . import canon2
+                        out[f"{rel}::{prefix}{st.name}::iters"] = canon2.iter_kinds(st)
+                        wt = canon2.while_tests(st)
+                        if wt:
+                            out[f"{rel}::{prefix}{st.name}::while"] = wt
+                        bt = canon2.bool_targets(st)
+                        if bt:
+                            out[f"{rel}::{prefix}{st.name}::booltgt"] = bt
                         bools = {}
                         for n in ast.walk(st):
                             if isinstance(n, ast.BoolOp) and len(n.values) >= 2:
